@@ -635,8 +635,28 @@ impl Check {
     }
   }
 
+  /// Development aid: with VERIF_SURVEY set, print the tally of failing signatures and exit 0.
+  pub fn survey_report(&self) {
+    if std::env::var("VERIF_SURVEY").is_err() {
+      return;
+    }
+    let mut by_sig: BTreeMap<String, (u64, String)> = Default::default();
+    for (k, v) in &self.stats.excluded {
+      if let Some(rest) = k.strip_prefix("SURVEY ") {
+        let (sig, msg) = rest.split_once(" :: ").unwrap_or((rest, ""));
+        let e = by_sig.entry(sig.to_string()).or_insert((0, msg.to_string()));
+        e.0 += v;
+      }
+    }
+    for (k, (n, m)) in by_sig {
+      println!("{n:6}  {k}\n          e.g. {m}");
+    }
+    std::process::exit(0);
+  }
+
   /// Write evidence, print VIOLATION lines, exit.
   pub fn finish(self, meta: EvidenceMeta) -> ! {
+    self.survey_report();
     write_evidence(&self.ctx, &meta, &self.stats, self.violations.len() as u64, &self.known_lines);
     println!(
       "[{} {}] seed={} evaluations={} distinct_nontrivial={} excluded={:?} inconclusive={} wall={:.1}s",
